@@ -1086,6 +1086,13 @@ def _run_case(case, run, res, model):
         if monitor_on[0]:
             new = run.obs[fed[0]:]
             fed[0] = len(run.obs)
+            if any(o[1] == "broken" for o in new) or any(s[d]["state"] == "eject_broken" for d in DEVS):
+                # a device has reported itself broken (the property's terminal outcome for it): what the OTHER devices do
+                # towards it from now on (e.g. an eject to it that was being set up in the same instant) is outside the
+                # ledger, which takes no transition into a broken device.  The oracles go on (rest_with_broken_device).
+                monitor_on[0] = False
+                res.count("monitor_off_after_broken_device")
+                return
             for o in new:
                 if o[1] == "plan" and o[2][0] in DEVS and s[o[2][0]]["counted"] == 0 and s[o[2][0]]["incoming"] > 0:
                     # a chain planned from a device that is empty and only EXPECTS its ball (its held ball was used for another
